@@ -13,19 +13,20 @@ fresh queue file; `Op.reopen` is both a clean Close/NewQueue and a kill + NewQue
 import RqModel.Lemmas.Fifo
 namespace C26
 open RqModel.Fifo
+variable {α : Type}
 
 /-- the largest index ever handed to `Enqueue` in a history (0 when none) -/
-def maxEnq : List Op → Nat
+def maxEnq : List (Op α) → Nat
   | [] => 0
   | .enq k _ :: rest => max k (maxEnq rest)
   | _ :: rest => maxEnq rest
 
 /-- no `DeleteRange n` with `k ≤ n` occurs in the history -/
-def NoDelCovering (ops : List Op) (k : Nat) : Prop := ∀ n, Op.del n ∈ ops → n < k
+def NoDelCovering (ops : List (Op α)) (k : Nat) : Prop := ∀ n, Op.del n ∈ ops → n < k
 
 /-! ### persisted high key -/
 
-theorem stepOp_highest (q : Q) (op : Op) (hq : Inv q) :
+theorem stepOp_highest (q : Q α) (op : Op α) (hq : Inv q) :
     (stepOp q op).1.highest = max q.highest (maxEnq [op]) := by
   cases op with
   | enq k d =>
@@ -42,10 +43,10 @@ theorem stepOp_highest (q : Q) (op : Op) (hq : Inv q) :
     simp only [stepOp, reopen, loadHead, maxEnq]
     simp
 
-theorem maxEnq_cons (op : Op) (rest : List Op) : maxEnq (op :: rest) = max (maxEnq [op]) (maxEnq rest) := by
+theorem maxEnq_cons (op : Op α) (rest : List (Op α)) : maxEnq (op :: rest) = max (maxEnq [op]) (maxEnq rest) := by
   cases op <;> simp [maxEnq]
 
-theorem runQ_highest (q : Q) (ops : List Op) (hq : Inv q) :
+theorem runQ_highest (q : Q α) (ops : List (Op α)) (hq : Inv q) :
     (runQ q ops).highest = max q.highest (maxEnq ops) := by
   induction ops generalizing q with
   | nil => simp [runQ, maxEnq]
@@ -55,20 +56,20 @@ theorem runQ_highest (q : Q) (ops : List Op) (hq : Inv q) :
 
 /-- The remembered high key is the largest index ever enqueued, across any number of
 reopens and kills in the history. -/
-theorem highest_is_max_ever_enqueued (ops : List Op) :
+theorem highest_is_max_ever_enqueued (ops : List (Op α)) :
     (runQ empty ops).highest = maxEnq ops := by
   rw [runQ_highest _ _ inv_empty]; simp [empty]
 
 /-- An enqueue at or below the highest index ever enqueued (also before earlier
 reopens/kills) is acknowledged and changes nothing — neither stored items nor cursor. -/
-theorem enqueue_at_or_below_highest_ignored (ops : List Op) (k : Nat) (d : String)
+theorem enqueue_at_or_below_highest_ignored (ops : List (Op α)) (k : Nat) (d : α)
     (h : k ≤ maxEnq ops) : enqueue (runQ empty ops) k d = runQ empty ops := by
   have := highest_is_max_ever_enqueued ops
   unfold enqueue
   simp [this, h]
 
 /-- … and an enqueue above it is stored and becomes the new high key. -/
-theorem enqueue_above_highest_stored (ops : List Op) (k : Nat) (d : String)
+theorem enqueue_above_highest_stored (ops : List (Op α)) (k : Nat) (d : α)
     (h : maxEnq ops < k) :
     (k, d) ∈ (enqueue (runQ empty ops) k d).items ∧ (enqueue (runQ empty ops) k d).highest = k := by
   have hq := inv_runQ empty ops inv_empty
@@ -78,18 +79,18 @@ theorem enqueue_above_highest_stored (ops : List Op) (k : Nat) (d : String)
 
 /-! ### deleting up to an index removes exactly the items at or below it -/
 
-theorem delete_exact (ops : List Op) (n : Nat) (p : Item) :
+theorem delete_exact (ops : List (Op α)) (n : Nat) (p : Item α) :
     p ∈ (deleteRange (runQ empty ops) n).items ↔ p ∈ (runQ empty ops).items ∧ n < p.1 := by
   rw [deleteRange_items _ _ (inv_runQ empty ops inv_empty)]
   simp [List.mem_filter]
 
-theorem delete_keeps_highest (ops : List Op) (n : Nat) :
+theorem delete_keeps_highest (ops : List (Op α)) (n : Nat) :
     (deleteRange (runQ empty ops) n).highest = (runQ empty ops).highest :=
   deleteRange_highest _ _
 
 /-! ### no acknowledged item is lost (history characterisation of the stored set) -/
 
-theorem stepOp_items (q : Q) (op : Op) (hq : Inv q) (p : Item) :
+theorem stepOp_items (q : Q α) (op : Op α) (hq : Inv q) (p : Item α) :
     p ∈ (stepOp q op).1.items ↔
       match op with
       | .enq k d => p ∈ q.items ∨ (q.highest < k ∧ p = (k, d))
@@ -115,7 +116,7 @@ theorem stepOp_items (q : Q) (op : Op) (hq : Inv q) (p : Item) :
   | reopen =>
     simp only [stepOp, reopen, loadHead] <;> simp
 
-theorem noDel_cons (op : Op) (rest : List Op) (k : Nat) :
+theorem noDel_cons (op : Op α) (rest : List (Op α)) (k : Nat) :
     NoDelCovering (op :: rest) k ↔ (∀ n, op = Op.del n → n < k) ∧ NoDelCovering rest k := by
   unfold NoDelCovering
   constructor
@@ -128,7 +129,7 @@ theorem noDel_cons (op : Op) (rest : List Op) (k : Nat) :
     · exact h2 n hn
 
 /-- from any state satisfying the invariant -/
-theorem mem_items_runQ (q : Q) (ops : List Op) (hq : Inv q) (k : Nat) (d : String) :
+theorem mem_items_runQ (q : Q α) (ops : List (Op α)) (hq : Inv q) (k : Nat) (d : α) :
     (k, d) ∈ (runQ q ops).items ↔
       ((k, d) ∈ q.items ∧ NoDelCovering ops k) ∨
       (∃ pre post, ops = pre ++ Op.enq k d :: post ∧
@@ -190,23 +191,23 @@ fresh queue file — enqueues, deletes, consumes, queries, reopens and kills in 
 and number — `(k,d)` is stored exactly when the history contains an `Enqueue(k,d)` that
 was above every index enqueued before it (so it was accepted, not suppressed) and no
 later `DeleteRange n` had `k ≤ n`. Reopen/kill and consumption never remove anything. -/
-theorem no_ack_lost (ops : List Op) (k : Nat) (d : String) :
+theorem no_ack_lost (ops : List (Op α)) (k : Nat) (d : α) :
     (k, d) ∈ (runQ empty ops).items ↔
       ∃ pre post, ops = pre ++ Op.enq k d :: post ∧ maxEnq pre < k ∧ NoDelCovering post k := by
   rw [mem_items_runQ _ _ inv_empty]
   simp [empty]
 
 /-- the bucket is always strictly ascending and the head is the `Seek(nextFrom)` result -/
-theorem reachable_inv (ops : List Op) : Inv (runQ empty ops) := inv_runQ _ _ inv_empty
+theorem reachable_inv (ops : List (Op α)) : Inv (runQ empty ops) := inv_runQ _ _ inv_empty
 
 /-- reopen / kill keep exactly the persistent part -/
-theorem reopen_keeps_persistent (q : Q) :
+theorem reopen_keeps_persistent (q : Q α) :
     (reopen q).items = q.items ∧ (reopen q).highest = q.highest := by
   simp only [reopen, loadHead]; simp
 
 /-! ### emission order -/
 
-theorem consume_emits_head (q : Q) (hq : Inv q) (e : Item) (h : (consume q).2 = some e) :
+theorem consume_emits_head (q : Q α) (hq : Inv q) (e : Item α) (h : (consume q).2 = some e) :
     e ∈ q.items ∧ q.nextFrom ≤ e.1 ∧ (consume q).1.nextFrom = e.1 + 1 := by
   unfold consume at *
   cases hne : q.nextEv with
@@ -218,7 +219,7 @@ theorem consume_emits_head (q : Q) (hq : Inv q) (e : Item) (h : (consume q).2 = 
     simp only [hne]
     exact ⟨seek_some_mem hs, seek_some_ge hs, trivial⟩
 
-theorem stepOp_nextFrom_mono (q : Q) (op : Op) (hq : Inv q) (hop : op ≠ Op.reopen) :
+theorem stepOp_nextFrom_mono (q : Q α) (op : Op α) (hq : Inv q) (hop : op ≠ Op.reopen) :
     q.nextFrom ≤ (stepOp q op).1.nextFrom := by
   cases op with
   | enq k d =>
@@ -238,7 +239,7 @@ theorem stepOp_nextFrom_mono (q : Q) (op : Op) (hq : Inv q) (hop : op ≠ Op.reo
   | query => simp [stepOp]
   | reopen => exact absurd rfl hop
 
-theorem emitted_increasing (q : Q) (hq : Inv q) (ops : List Op) (hno : Op.reopen ∉ ops) :
+theorem emitted_increasing (q : Q α) (hq : Inv q) (ops : List (Op α)) (hno : Op.reopen ∉ ops) :
     ((emitted q ops).map (·.1)).Pairwise (· < ·) ∧ ∀ e ∈ emitted q ops, q.nextFrom ≤ e.1 := by
   induction ops generalizing q with
   | nil => simp [emitted]
@@ -278,18 +279,18 @@ theorem emitted_increasing (q : Q) (hq : Inv q) (ops : List Op) (hno : Op.reopen
 index is emitted at most once per open — a deleted index can never be re-added, see
 `enqueue_at_or_below_highest_ignored`). `pre` is any earlier history (with any number of
 reopens); `seg` is any operation sequence without a reopen, i.e. one open. -/
-theorem emission_strictly_increasing_per_open (pre seg : List Op) (h : Op.reopen ∉ seg) :
+theorem emission_strictly_increasing_per_open (pre seg : List (Op α)) (h : Op.reopen ∉ seg) :
     ((emitted (runQ empty pre) seg).map (·.1)).Pairwise (· < ·) :=
   (emitted_increasing _ (reachable_inv pre) seg h).1
 
 /-- every emitted event is an item stored at that moment (index and data) -/
-theorem emits_only_stored (ops : List Op) (e : Item) (h : (consume (runQ empty ops)).2 = some e) :
+theorem emits_only_stored (ops : List (Op α)) (e : Item α) (h : (consume (runQ empty ops)).2 = some e) :
     e ∈ (runQ empty ops).items :=
   (consume_emits_head _ (reachable_inv ops) e h).1
 
 /-! ### progress -/
 
-theorem filter_ge_of_seek (l : List Item) (hs : Sorted l) (n : Nat) (e : Item)
+theorem filter_ge_of_seek (l : List (Item α)) (hs : Sorted l) (n : Nat) (e : Item α)
     (h : seek l n = some e) :
     l.filter (fun p => decide (n ≤ p.1)) = e :: l.filter (fun p => decide (e.1 + 1 ≤ p.1)) := by
   induction l with
@@ -317,7 +318,7 @@ theorem filter_ge_of_seek (l : List Item) (hs : Sorted l) (n : Nat) (e : Item)
       simp
       exact ih hs.2 h
 
-theorem filter_ge_of_seek_none (l : List Item) (n : Nat) (h : seek l n = none) :
+theorem filter_ge_of_seek_none (l : List (Item α)) (n : Nat) (h : seek l n = none) :
     l.filter (fun p => decide (n ≤ p.1)) = [] := by
   unfold seek at h
   rw [List.find?_eq_none] at h
@@ -325,7 +326,7 @@ theorem filter_ge_of_seek_none (l : List Item) (n : Nat) (h : seek l n = none) :
   exact h
 
 /-- `m` receives from `C` deliver exactly the first `m` stored items at or above the cursor -/
-theorem drain_exact (q : Q) (hq : Inv q) (m : Nat) :
+theorem drain_exact (q : Q α) (hq : Inv q) (m : Nat) :
     emitted q (List.replicate m Op.consume) =
       (q.items.filter (fun p => decide (q.nextFrom ≤ p.1))).take m := by
   induction m generalizing q with
@@ -351,7 +352,7 @@ theorem drain_exact (q : Q) (hq : Inv q) (m : Nat) :
 
 /-- **Progress.** From any reachable state, a stored item at or above the cursor is
 received after at most `Len` consumes (nothing else needs to happen). -/
-theorem progress (ops : List Op) (p : Item)
+theorem progress (ops : List (Op α)) (p : Item α)
     (hp : p ∈ (runQ empty ops).items) (hc : (runQ empty ops).nextFrom ≤ p.1) :
     p ∈ emitted (runQ empty ops) (List.replicate (runQ empty ops).items.length Op.consume) := by
   rw [drain_exact _ (reachable_inv ops)]
@@ -359,7 +360,7 @@ theorem progress (ops : List Op) (p : Item)
   simp [List.mem_filter, hp, hc]
 
 /-- after a reopen (or kill) the cursor is 0: every stored item is emitted again -/
-theorem progress_after_reopen (ops : List Op) (p : Item) (hp : p ∈ (runQ empty ops).items) :
+theorem progress_after_reopen (ops : List (Op α)) (p : Item α) (hp : p ∈ (runQ empty ops).items) :
     p ∈ emitted (reopen (runQ empty ops)) (List.replicate (runQ empty ops).items.length Op.consume) := by
   have hq := inv_reopen _ (reachable_inv ops)
   have hi := (reopen_keeps_persistent (runQ empty ops)).1
@@ -370,7 +371,7 @@ theorem progress_after_reopen (ops : List Op) (p : Item) (hp : p ∈ (runQ empty
 
 /-! ### non-vacuity: concrete histories exercising every hypothesis -/
 
-def exOps : List Op :=
+def exOps : List (Op String) :=
   [.enq 3 "x01", .enq 2 "x02", .enq 5 "x05", .consume, .reopen, .enq 4 "x04", .enq 7 "x07", .del 3, .consume]
 
 example : (runQ empty exOps).items = [(5, "x05"), (7, "x07")] ∧ (runQ empty exOps).highest = 7 ∧
